@@ -61,6 +61,8 @@ struct Case {
     sst: Option<Vec<Vec<u16>>>,
     framing: Framing,
     deflate: bool,
+    /// records written in styles.bin between BrtEndFmts and BrtBeginCellXFs (fonts, fills, borders …)
+    spre: Vec<(u16, Vec<u8>)>,
     /// `-` = well-formed; otherwise the name of the single fault that was injected
     fault: String,
     sheets: Vec<SheetCase>,
@@ -159,7 +161,8 @@ impl Case {
             Framing::Widest => "w".into(),
             Framing::Random(s) => format!("r{s}"),
         };
-        let mut s = format!("xlsb d={} xfs={xfs} fmts={fmts} sst={sst} fr={fr} z={} fault={}", self.date1904 as u8, self.deflate as u8, self.fault);
+        let spre = if self.spre.is_empty() { "-".to_string() } else { self.spre.iter().map(|(i, p)| format!("{i}:{}", hex(p))).collect::<Vec<_>>().join(",") };
+        let mut s = format!("xlsb d={} xfs={xfs} fmts={fmts} sst={sst} fr={fr} z={} spre={spre} fault={}", self.date1904 as u8, self.deflate as u8, self.fault);
         for sh in &self.sheets {
             s.push_str(&format!(
                 " # {} {} {}",
@@ -207,6 +210,16 @@ impl Case {
             "w" => Framing::Widest,
             s => Framing::Random(s[1..].parse().unwrap()),
         };
+        let spre = match head.iter().find_map(|t| t.strip_prefix("spre=")) {
+            None | Some("-") => vec![],
+            Some(s) => s
+                .split(',')
+                .map(|x| {
+                    let (a, b) = x.split_once(':').unwrap();
+                    (a.parse().unwrap(), unhex(b))
+                })
+                .collect(),
+        };
         let mut sheets = vec![];
         for p in parts {
             let t: Vec<&str> = p.split(' ').filter(|x| !x.is_empty()).collect();
@@ -217,7 +230,7 @@ impl Case {
                 items: t[3..].iter().map(|x| Fr::parse(x)).collect(),
             });
         }
-        Case { date1904: val("d=") == "1", xfs, fmts, sst, framing, deflate: val("z=") == "1", fault: val("fault=").to_string(), sheets }
+        Case { date1904: val("d=") == "1", xfs, fmts, sst, framing, deflate: val("z=") == "1", spre, fault: val("fault=").to_string(), sheets }
     }
 }
 
@@ -433,6 +446,7 @@ fn build_book(c: &Case, parts: &[Vec<u8>]) -> XlsbBook {
     b.sst = c.sst.clone();
     b.framing = c.framing.clone();
     b.deflate = c.deflate;
+    b.styles_pre = c.spre.clone();
     for (sh, p) in c.sheets.iter().zip(parts) {
         let mut s = XlsbSheet::new(&sh.name);
         s.state = sh.state;
@@ -961,6 +975,30 @@ fn gen_case(rng: &mut Rng) -> Case {
     };
     let nsst = sst.as_ref().map_or(0, |s| s.len());
     let nxf = xfs.as_ref().map_or(0, |x| x.len());
+    // fonts / fills / borders between the number formats and the cell XFs, as in every real styles part
+    let mut spre = vec![];
+    if xfs.is_some() && rng.chance(1, 3) {
+        spre.push((0x0263u16, 1u32.to_le_bytes().to_vec())); // BrtBeginFonts
+        for _ in 0..rng.range(1, 3) {
+            let mut p = match rng.below(3) {
+                0 => vec![0xDC, 0, 0, 0, 0x90, 0x01, 0, 0, 0, 2, 0, 0, 7, 1, 0, 0, 0, 0, 0xFF, 2],
+                1 => rbytes(rng, 30, 1),
+                // font height 1257 twips / a name with U+04E9 / U+04E7: the byte pairs E9 04, E7 04
+                _ => vec![*rng.pick(&[0xE9u8, 0xE7]), 0x04, 1, 0, 0, 0, 0x90, 0x01, 0, 0, 0, 2],
+            };
+            p.extend_from_slice(&xlsbw::wide_str(*rng.pick(&["Calibri", "Arial", "\u{4e9}\u{4e7}"])));
+            if rng.chance(1, 3) {
+                p.push(*rng.pick(&[0x80u8, 0xE9, 0xFF]));
+            }
+            spre.push((0x002B, p)); // BrtFont
+        }
+        spre.push((0x0264, vec![])); // BrtEndFonts
+        if rng.chance(1, 2) {
+            spre.push((0x0272, 1u32.to_le_bytes().to_vec())); // BrtBeginCellStyleXFs
+            spre.push((0x002F, vec![0xFF, 0xFF, 14, 0, 0, 0, 0, 0, 0, 0, 0, 0, 0, 0, 0, 0])); // BrtXF of a cell style (a date format!)
+            spre.push((0x0273, vec![])); // BrtEndCellStyleXFs
+        }
+    }
     let nsheets = *rng.pick(&[1usize, 1, 1, 2, 3]);
     let names = ["Sheet1", "Données", "S 3"];
     let sheets = (0..nsheets).map(|i| gen_sheet(rng, names[i].to_string(), nsst, nxf)).collect();
@@ -975,6 +1013,7 @@ fn gen_case(rng: &mut Rng) -> Case {
             _ => Framing::Random(rng.below(1000)),
         },
         deflate: rng.chance(1, 2),
+        spre,
         fault: "-".into(),
         sheets,
     }
@@ -1236,6 +1275,7 @@ fn base_case(data: Vec<It>) -> Case {
         sst: Some(vec!["shared".encode_utf16().collect()]),
         framing: Framing::Minimal,
         deflate: false,
+        spre: vec![],
         fault: "-".into(),
         sheets: vec![sheet_of(data)],
     }
@@ -1287,6 +1327,14 @@ fn corpus() -> Vec<Case> {
     v.push(c);
     // empty sheet
     v.push(base_case(vec![]));
+    // styles part with a font record whose payload contains the bytes E9 04 (read_styles scanned payloads as ids)
+    let mut c = base_case(vec![row(0), cell(0, 1, Kind::Real(44197.0f64.to_bits()), false)]);
+    c.spre = vec![(0x0263, vec![1, 0, 0, 0]), (0x002B, vec![0xE9, 0x04, 1, 0, 0, 0, 0x90, 0x01, 0, 0, 0, 2]), (0x0264, vec![])];
+    v.push(c);
+    // … and one whose last payload byte has the high bit set (swallowed the id of BrtBeginCellXFs)
+    let mut c = base_case(vec![row(0), cell(0, 1, Kind::Real(44197.0f64.to_bits()), false)]);
+    c.spre = vec![(0x002B, vec![0xDC, 0, 0, 0, 0x80])];
+    v.push(c);
     v
 }
 
@@ -1536,6 +1584,9 @@ fn count_case(c: &Case, rep: &mut Report) {
         Some(v) if v.is_empty() => "sst_empty",
         _ => "sst_present",
     });
+    if !c.spre.is_empty() {
+        rep.count("styles_with_font_records");
+    }
     rep.count(match &c.xfs {
         None => "styles_absent",
         Some(v) if v.is_empty() => "styles_empty",
